@@ -33,7 +33,7 @@ Print Assumptions C05_no_smuggling_refuted.
 Definition w_sched : bytes := repeat 97%N 1002 ++ [13; 99; 13; 10; 46; 13; 10]%N.  (* 1002 x a, CR, c CRLF . CRLF *)
 Theorem C05_schedule_independent_refuted : ~ C05_schedule_independent_full.
 Proof.
-  intros H. specialize (H w_sched [255; 255; 255; 255; 255] [255; 255; 255; 255; 2; 255]).
+  intros H. specialize (H w_sched [] [255; 255; 255; 236; 2]).
   vm_compute in H. discriminate.
 Qed.
 Print Assumptions C05_schedule_independent_refuted.
